@@ -22,8 +22,10 @@ struct C17 : vr::Driver {
     tier_ = tier;
     bool th = tier == "thorough";
     plugins = th ? std::vector<int>{0, 1, 2, 3} : std::vector<int>{0, 1};
-    // dims: shape(2) pop(4) outcome(4) pre(4) plugin silence(3) always_continue(2) dry(2) kernelkill(2) history(2)
-    mx.dims = {2, 4, 4, kNPre, plugins.size(), 3, 2, 2, 2, 2};
+    // dims: shape(2) pop(4) outcome(4) pre(4) plugin silence(3) always_continue(2) dry(2) kernelkill(2)
+    //       history(4: none / new process before tick 3 / a nested descendant cgroup disappears right after the first signal /
+    //       a nested descendant's cgroup.procs cannot be opened (EMFILE) from the first signal on)
+    mx.dims = {2, 4, 4, kNPre, plugins.size(), 3, 2, 2, 2, 4};
   }
   size_t count() override { return mx.total(); }
   size_t chunk() override { return 16; }
@@ -69,16 +71,39 @@ struct C17 : vr::Driver {
     if (d[7]) s.args["dry"] = "true";
     if (d[8]) s.args["kernelkill"] = "true";
     s.ticks = 3;
-    if (d[9]) s.steps.push_back({3, 3, shape.back()});  // the (probably already killed) cgroup gets a new process before tick 3
+    if (d[9] == 1) s.steps.push_back({3, 3, shape.back()});  // the (probably already killed) cgroup gets a new process before tick 3
+    if (d[9] == 2 && d[0] == 1) {
+      // p/a/y disappears (its processes exit, systemd removes the unit) as soon as the first signal of the run has been sent
+      auto done = std::make_shared<bool>(false);
+      s.afterKill = [done](int, int) {
+        if (*done) return;
+        *done = true;
+        if (world::exists("p/a/y")) {
+          world::rmcg("p/a/y");
+          world::syncProcs();
+        }
+      };
+    }
+    if (d[9] == 3 && d[0] == 1) {
+      s.afterKill = [](int, int) {
+        vb::onAccess = [](const char* op, const std::string& path) -> int {
+          static const std::string tail = "/p/a/y/cgroup.procs";
+          bool opening = strncmp(op, "open", 4) == 0 || strncmp(op, "fopen", 5) == 0;
+          return opening && path.size() > tail.size() && path.compare(path.size() - tail.size(), tail.size(), tail) == 0 ? EMFILE : 0;
+        };
+      };
+    }
     return s;
   }
-  std::string describe(size_t i) override { return build(i).describe(); }
+  std::string describe(size_t i) override { return build(i).describe() + (mx.decode(i)[9] == 2 ? " [p/a/y disappears after the first signal]" : mx.decode(i)[9] == 3 ? " [p/a/y/cgroup.procs unreadable after the first signal]" : ""); }
   std::string klass(size_t i) override { return build(i).plugin; }
   void workerInit() override { sim::processInit(); }
 
   void run(size_t idx, vr::Result& r, bool verbose) override {
     ks::Scenario s = build(idx);
+    vb::onAccess = nullptr;
     ks::Outcome o = ks::run(s, verbose);
+    vb::onAccess = nullptr;
     std::string cls = "C17|" + s.plugin + "|";
     if (!o.rejected.empty()) {
       r.violate("C17|harness|config-rejected", o.rejected);
